@@ -203,6 +203,8 @@ def run(ctx):
     only_a_missing_default_file_is_forgiven(ctx, "R13-l")
     relative_offset_is_consumed(ctx, "R13-m")
     macro_bodies_keep_every_module(ctx, "R13-n")
+    only_cfg_attr_names_further_files(ctx, "R13-o")
+    macro_recognisers_look_at_the_macro_name(ctx, "R13-p")
 
     D = r.rule("R13-d", "ParseSess::default_submod_path retries in the declaring file's own directory only for "
                         "ModError::FileNotFound with a relative owner, every other error is passed on unchanged; the module map "
@@ -721,3 +723,101 @@ def macro_bodies_keep_every_module(ctx, rid):
                         "the collector distinguishes loaded (inline) from unloaded modules: `cfg_if! { if #[cfg(unix)] { mod imp "
                         "{ mod unix; } } }` no longer leads the resolver to imp/unix.rs", sorted(set(looks))[:2])
     r.floor(rid, n, 2, "pushes of items in the two collectors")
+
+
+def only_cfg_attr_names_further_files(ctx, rid):
+    """R13-o: the path collector looks into cfg_attr attributes only"""
+    from common import bool_branches, edge_dominates
+    p, r = ctx.p, ctx.r
+    r.rule(rid, "modules::visitor::PathVisitor collects every `path = \"..\"` name-value it is shown, at any depth; the files so "
+                "named are parsed, formatted and written. The language gives that meaning to `#[path]` (handled by the "
+                "resolver proper) and to `cfg_attr(predicate, path = \"..\")` only, so every call that starts the collector on "
+                "an attribute (MetaVisitor::visit_meta_item on a PathVisitor, outside the visitor itself) is dominated by the "
+                "true edge of `has_name(sym::cfg_attr)` on that attribute. Shown every attribute, it takes "
+                "`#[cfg(path = \"other.rs\")] mod m;` for a declaration of other.rs — a file that is not part of the crate is "
+                "rewritten")
+    n = 0
+    for f in p.by_crate["rustfmt_nightly"]:
+        if "::modules::visitor::" in f.id or "::attr::" in f.id:
+            continue
+        for c in f.calls():
+            if not (c.declared or c.name).endswith("MetaVisitor::visit_meta_item") or not c.args or c.args[0][0] == "k":
+                continue
+            if "PathVisitor" not in f.locals[c.args[0][1][0]] and not any("PathVisitor" in f.locals[l] for l in f.derived_from(c.args[0][1][0])["locals"]):
+                continue
+            n += 1
+            ok = False
+            for g in f.calls():
+                if g.name.endswith("::has_name") and len(g.args) > 1 and not g.dest[1]:
+                    a = g.args[1]
+                    named = a[2].get("named") if a[0] == "k" and isinstance(a[2], dict) else None
+                    if named is None and a[0] != "k":
+                        o = operand_origin_named(f, a)
+                        named = o
+                    if not (named or "").endswith("sym::cfg_attr"):
+                        continue
+                    for sw, tt, ff in bool_branches(f, g.dest[0]):
+                        if tt is not None and edge_dominates(f, (sw, tt), c.bb):
+                            ok = True
+            r.instance(rid, "%s starts the path collector" % short(f.root or f.id), "ok" if ok else "violation", c.loc(),
+                       "under has_name(cfg_attr): %s" % ok)
+            if not ok:
+                r.violation(rid, "%s shows every attribute to the path collector" % short(f.root or f.id),
+                            "PathVisitor::visit_meta_item is reached without `has_name(sym::cfg_attr)` having answered true: "
+                            "`path = \"..\"` inside `cfg(..)`, `doc(..)` or any other attribute is taken for a module file",
+                            [c.loc()])
+    r.floor(rid, n, 1, "starts of the path collector")
+
+
+def operand_origin_named(f, a):
+    """name of the unevaluated constant an operand was copied from, if any"""
+    seen = 0
+    l = a[1][0]
+    while seen < 4:
+        d = f.single_def(l)
+        if d is None or d[1] != "assign" or isinstance(d[2], Call):
+            return None
+        rv = d[2][2]
+        if rv[0] == "use" and rv[1][0] == "k":
+            return rv[1][2].get("named") if isinstance(rv[1][2], dict) else None
+        if rv[0] == "use" and rv[1][0] != "k":
+            l = rv[1][1][0]
+            seen += 1
+            continue
+        return None
+    return None
+
+
+def macro_recognisers_look_at_the_macro_name(ctx, rid):
+    """R13-p: cfg_if! / cfg_match! are recognised by the last segment of the macro path, at all four places"""
+    import re
+    p, r = ctx.p, ctx.r
+    r.rule(rid, "sibling agreement: modules::is_cfg_if, modules::is_cfg_match and the two visitors that collect their bodies "
+                "(CfgIfVisitor / CfgMatchVisitor::visit_mac_inner) decide from one segment of the macro's path whether the call "
+                "is theirs. The macro is named by the *last* segment (`::cfg_if::cfg_if!`, `macros::cfg_if!`); the first "
+                "segment is a crate or module name (`cfg_if::other_macro!` is not cfg_if!). All four take `segments.last()`: "
+                "a recogniser that takes the first segment does not see `mod x;` inside `::cfg_if::cfg_if! { .. }`, and the "
+                "file is not formatted")
+    want = ("modules::is_cfg_if", "modules::is_cfg_match", "modules::visitor::CfgIfVisitor::<'a>::visit_mac_inner",
+            "modules::visitor::CfgMatchVisitor::<'a>::visit_mac_inner")
+    n = 0
+    for w in want:
+        fs = [g for g in p.by_crate["rustfmt_nightly"] if short(g.id) == w]
+        if len(fs) != 1:
+            r.undecidable(rid, "%s not found" % w)
+            continue
+        f = fs[0]
+        acc = []
+        for c in f.calls():
+            last = re.sub(r"<.*?>", "", c.name).rsplit("::", 1)[-1]
+            tys = " ".join(f.locals[a[1][0]] for a in c.args if a[0] != "k")
+            if last in ("first", "last", "get", "index", "split_first", "split_last", "first_mut") and "PathSegment" in tys + " ".join(c.ga):
+                acc.append(last)
+        n += 1
+        ok = acc == ["last"]
+        r.instance(rid, "%s looks at segments.%s" % (w, "/".join(acc) or "?"), "ok" if ok else "violation", "%s:%d" % (f.file, f.line))
+        if not ok:
+            r.violation(rid, "%s does not decide by the last segment of the macro path (%s)" % (w, "/".join(acc) or "none found"),
+                        "the name of an invoked macro is the last segment of its path; `::cfg_if::cfg_if! { if #[cfg(a)] { mod x; } }` "
+                        "is not recognised by a test of the first segment, and x.rs is not formatted", ["%s:%d" % (f.file, f.line)])
+    r.floor(rid, n, 4, "recognisers of cfg_if! / cfg_match!")
